@@ -6,7 +6,7 @@
    pixels; [comp_size p k] says the connected component of p has exactly k pixels;
    [qualifies p] = foreground and component size >= npixels. *)
 From Coq Require Import List Arith ZArith Bool.
-From PV Require Import lib.Cases lib.Conn C04_Model C04_Proofs.
+From PV Require Import lib.Cases lib.Conn C04_Model C04_Proofs C04_PathModel C04_PathProofs.
 Import ListNotations.
 
 (* the model always terminates with an answer (the fuel bound is a theorem) *)
@@ -63,3 +63,158 @@ Example detect_example :
                             (repeat false 12))
   = Seg [1;1;0;0; 0;0;0;0; 2;2;0;0].
 Proof. vm_compute. reflexivity. Qed.
+
+(* ====================================================================================== *)
+(* The staged code path and the pre-seeded caches (C04_PathModel.detect_path mirrors       *)
+(* _detect_sources stage by stage: scipy label numbering, find_objects BEFORE removal,     *)
+(* removal through cutout views, label-map array only when something was removed,          *)
+(* pre-seeded labels / slices; areas are counted through the cached slices).               *)
+(* ====================================================================================== *)
+
+Theorem detect_path_total : forall ny nx conn8 npix fgl, detect_path ny nx conn8 npix fgl <> PFuel.
+Proof. exact path_not_fuel. Qed.
+Print Assumptions detect_path_total.
+
+(* refinement: the staged path returns exactly the label array of [detect] (hence [detect_spec]
+   holds for it), None in exactly the same cases, and its pre-seeded labels / slices are 1..N and
+   the tight boxes of the FINAL array — although the slices were computed on the scipy-numbered
+   array before any component was removed or renumbered *)
+Theorem staged_path_refines_detect : forall ny nx conn8 npix fgl,
+  match detect ny nx conn8 npix fgl with
+  | Fuel => False
+  | NoDet => detect_path ny nx conn8 npix fgl = PNoDet
+  | Seg out => detect_path ny nx conn8 npix fgl =
+               PSeg out (seq 1 (nlabels out)) (map (slice_of nx out) (seq 1 (nlabels out)))
+  end.
+Proof. exact detect_path_refines. Qed.
+Print Assumptions staged_path_refines_detect.
+
+(* the removal loop in closed form: given distinct non-zero labels whose slices contain all their
+   pixels, it zeroes exactly the labels with fewer than npixels pixels, touches nothing else, and
+   returns the other labels with their ORIGINAL slices, in order *)
+Theorem removal_loop_closed_form : forall nx npix ls img,
+  NoDup (map fst ls) -> ~ In 0 (map fst ls) ->
+  (forall l s, In (l, s) ls -> covers nx img s l) ->
+  prune nx npix img ls =
+    (map (kill (removed npix img (map fst ls))) img,
+     (filter (keepc npix img) (map fst ls), map snd (filter (fun x => keepc npix img (fst x)) ls))).
+Proof. exact prune_closed. Qed.
+Print Assumptions removal_loop_closed_form.
+
+(* the relabel array: i-th kept label -> i+1, every other index (0, removed labels) -> 0; with
+   max(labels)+1 entries no index is out of range *)
+Theorem label_map_array_spec : forall M kl v, NoDup kl -> (forall l, In l kl -> l <= M) ->
+  nth v (label_map M kl) 0 = if memb v kl then S (index_of v kl) else 0.
+Proof. exact label_map_spec. Qed.
+Print Assumptions label_map_array_spec.
+
+(* labels = [1..N], N = number of qualifying components (R lists the first pixel of each) *)
+Theorem labels_are_1_to_N : forall ny nx conn8 npix fgl out labels slices,
+  detect_path ny nx conn8 npix fgl = PSeg out labels slices ->
+  exists R, NoDup R /\
+    (forall r, In r R <-> r < npx ny nx /\ qualifies ny nx conn8 npix fgl r /\
+                          (forall q, q < npx ny nx -> pconn ny nx conn8 fgl r q -> r <= q)) /\
+    labels = seq 1 (length R) /\
+    (forall p, p < npx ny nx -> nth p out 0 <= length R) /\
+    (forall k, In k labels -> exists p, p < npx ny nx /\ nth p out 0 = k).
+Proof. exact path_labels. Qed.
+Print Assumptions labels_are_1_to_N.
+
+(* areas (counted through the pre-seeded slices) = number of pixels carrying the label = size of
+   that connected component *)
+Theorem areas_are_component_sizes : forall ny nx conn8 npix fgl out labels slices,
+  detect_path ny nx conn8 npix fgl = PSeg out labels slices ->
+  areas_of nx out labels slices = map (area_of out) labels /\
+  (forall p, p < npx ny nx -> nth p out 0 <> 0 -> comp_size ny nx conn8 fgl p (area_of out (nth p out 0))) /\
+  (forall k, In k labels -> exists p, p < npx ny nx /\ nth p out 0 = k /\
+        nth (k - 1) (areas_of nx out labels slices) 0 = area_of out k /\
+        comp_size ny nx conn8 fgl p (area_of out k)).
+Proof. exact path_areas. Qed.
+Print Assumptions areas_are_component_sizes.
+
+(* slice k-1 is the smallest row/column range containing every pixel labelled k *)
+Theorem slices_are_tight_bounding_boxes : forall ny nx conn8 npix fgl out labels slices,
+  detect_path ny nx conn8 npix fgl = PSeg out labels slices ->
+  length slices = length labels /\
+  forall k, 1 <= k <= length labels ->
+    let '((y0, y1), (x0, x1)) := nth (k - 1) slices ((0, 0), (0, 0)) in
+    (forall p, p < npx ny nx -> nth p out 0 = k -> y0 <= p / nx < y1 /\ x0 <= p mod nx < x1) /\
+    (exists p, p < npx ny nx /\ nth p out 0 = k /\ p / nx = y0) /\
+    (exists p, p < npx ny nx /\ nth p out 0 = k /\ S (p / nx) = y1) /\
+    (exists p, p < npx ny nx /\ nth p out 0 = k /\ p mod nx = x0) /\
+    (exists p, p < npx ny nx /\ nth p out 0 = k /\ S (p mod nx) = x1).
+Proof. exact path_slices. Qed.
+Print Assumptions slices_are_tight_bounding_boxes.
+
+(* the pre-seeded caches can never disagree with the array: they equal what a fresh
+   SegmentationImage derives from the label array alone (both branches of its `labels`) *)
+Theorem preseeded_agree : forall ny nx conn8 npix fgl out labels slices,
+  detect_path ny nx conn8 npix fgl = PSeg out labels slices ->
+  labels = fresh_labels out /\ labels = fresh_labels_from_raw nx out /\
+  slices = fresh_slices nx out /\ areas_of nx out labels slices = fresh_areas nx out.
+Proof. exact path_fresh. Qed.
+Print Assumptions preseeded_agree.
+
+(* universal facts about the fresh derivation (ANY label array, gaps allowed) *)
+Theorem fresh_labels_two_branches_agree : forall nx out, fresh_labels_from_raw nx out = fresh_labels out.
+Proof. exact fresh_labels_branches. Qed.
+Print Assumptions fresh_labels_two_branches_agree.
+Theorem fresh_slices_are_boxes_of_fresh_labels : forall nx out,
+  fresh_slices nx out = map (slice_of nx out) (fresh_labels out).
+Proof. exact fresh_slices_eq. Qed.
+Print Assumptions fresh_slices_are_boxes_of_fresh_labels.
+Theorem fresh_areas_are_pixel_counts : forall nx out, fresh_areas nx out = map (area_of out) (fresh_labels out).
+Proof. exact fresh_areas_eq. Qed.
+Print Assumptions fresh_areas_are_pixel_counts.
+Theorem tight_box_contains_and_touches : forall nx out l, 0 < nx ->
+  (forall p, p < length out -> nth p out 0 = l -> in_slice nx (slice_of nx out l) p = true) /\
+  ((exists p, p < length out /\ nth p out 0 = l) ->
+   let '((y0, y1), (x0, x1)) := slice_of nx out l in
+   (exists p, p < length out /\ nth p out 0 = l /\ p / nx = y0) /\
+   (exists p, p < length out /\ nth p out 0 = l /\ S (p / nx) = y1) /\
+   (exists p, p < length out /\ nth p out 0 = l /\ p mod nx = x0) /\
+   (exists p, p < length out /\ nth p out 0 = l /\ S (p mod nx) = x1)).
+Proof. intros nx out l Hnx. split; [exact (slice_of_contains nx out l)|exact (slice_of_tight nx out l Hnx)]. Qed.
+Print Assumptions tight_box_contains_and_touches.
+
+(* less foreground (more mask, higher threshold) or a larger npixels never creates a detection *)
+Theorem detect_monotone : forall ny nx conn8 npix npix' fgl fgl',
+  (forall p, p < npx ny nx -> fg fgl' p = true -> fg fgl p = true) -> npix <= npix' ->
+  forall out', detect ny nx conn8 npix' fgl' = Seg out' ->
+  exists out, detect ny nx conn8 npix fgl = Seg out /\
+    forall p, p < npx ny nx -> nth p out' 0 <> 0 -> nth p out 0 <> 0.
+Proof. exact detect_mono. Qed.
+Print Assumptions detect_monotone.
+Theorem foreground_monotone : forall data thr thr' mask mask' p,
+  (forall t', nth_error thr' p = Some (Some t') -> exists t, nth_error thr p = Some (Some t) /\ (t <= t')%Z) ->
+  (nth_error mask' p = Some false -> nth_error mask p = Some false) ->
+  nth_error (fg_of data thr' mask') p = Some true -> nth_error (fg_of data thr mask) p = Some true.
+Proof. exact fg_of_mono. Qed.
+Print Assumptions foreground_monotone.
+
+(* non-vacuity.  4x4, 4-connectivity, npixels = 2: scipy numbers 4 components; the 2nd and 3rd
+   (single pixels) are removed, so the label map sends 1->1, 4->2; the kept slices are the
+   original boxes of scipy labels 1 and 4 *)
+Example detect_path_example_relabel :
+  detect_path 4 4 false 2 [true;true;false;true; false;false;true;false; true;true;false;false; true;false;false;false]
+  = PSeg [1;1;0;0; 0;0;0;0; 2;2;0;0; 2;0;0;0] [1;2] [((0,1),(0,2)); ((2,4),(0,2))].
+Proof. vm_compute. reflexivity. Qed.
+(* nothing removed: no relabelling branch *)
+Example detect_path_example_keep_all :
+  detect_path 2 3 true 1 [true;false;true; false;false;true]
+  = PSeg [1;0;2; 0;0;2] [1;2] [((0,1),(0,1)); ((0,2),(2,3))].
+Proof. vm_compute. reflexivity. Qed.
+Example detect_path_example_none :
+  detect_path 2 2 true 3 [true;false; false;true] = PNoDet /\ detect_path 2 2 true 1 [false;false;false;false] = PNoDet.
+Proof. vm_compute. split; reflexivity. Qed.
+(* the fresh derivation on an array with a gap (label 2 missing) *)
+Example fresh_example_gap :
+  let out := [1;1;0;0; 0;0;0;3; 0;3;3;3] in
+  fresh_labels out = [1;3] /\ fresh_labels_from_raw 4 out = [1;3] /\
+  fresh_slices 4 out = [((0,1),(0,2)); ((1,3),(1,4))] /\ fresh_areas 4 out = [2;4].
+Proof. vm_compute. repeat split; reflexivity. Qed.
+(* the hypotheses of [detect_monotone] are satisfiable with a strict inclusion *)
+Example detect_monotone_example :
+  detect 2 3 true 2 [true;true;false; false;false;true] = Seg [1;1;0; 0;0;1] /\
+  detect 2 3 true 2 [true;true;false; false;false;false] = Seg [1;1;0; 0;0;0].
+Proof. vm_compute. split; reflexivity. Qed.
